@@ -101,8 +101,6 @@ def wellformed_obs(o, allow_nan=False):
         total += len(l)
     for k in ('idl', 'deltas', 'shape', 'r_values'):
         extra = [n for n in getattr(o, k) if n not in mc]
-        # dobs imports add empty bookkeeping entries for covariance names: tolerated (DESIGN C04)
-        extra = [n for n in extra if n not in covn]
         if extra:
             p.append('slot-%s-has-foreign-name' % k)
     if o.N != total:
